@@ -117,6 +117,41 @@ def effective_origin(st: State, v: Any) -> str:
     return field_origin(v)
 
 
+def abstract_match(ca: CodecAnalyser, mt: "Matcher", ra: ClassAnalysis, pa: ClassAnalysis) -> tuple[list[str], int]:
+    """Evaluate matches() abstractly for (parsed request, parsed response) over the same symbolic bytes (= equal echoes).
+    A definite False is only acceptable on a path that compared something derived from the received bytes."""
+    import re as _re
+    mf = mt.funcs[0]
+    refusals: list[str] = []
+    n_eval = 0
+    for rp in pa.accepted:
+        for qp in ra.accepted:
+            st = rp.state.clone()
+            base_facts = len(st.facts)
+            oid = st.next_id
+            st.next_id += 1
+            st.heap[oid] = ObjV(qp.obj_cls, dict(qp.fields), oid)
+            try:
+                outs = ca.interp.call_function(st, mf, [ObjV(qp.obj_cls, {}, oid)], {}, self_val=ObjV(rp.obj_cls, {}, rp.oid))
+            except AnalysisError as e:
+                refusals.append(f"matches() uses a construct the interpreter does not model: {e}")
+                return refusals, n_eval
+            for st2, v in outs:
+                n_eval += 1
+                new = st2.facts[base_facts:]
+                if isinstance(v, Raised):
+                    refusals.append(f"matches() raises {v.exc} ({v.where})")
+                    continue
+                val = v.value if isinstance(v, ConstV) else None
+                if val is False:
+                    wire_dependent = any(_re.search(r"pdu\[|\bL\b|from_bytes|bits<", f.vtext or repr(f)) for f in new if f.kind == "opaque") \
+                        or any(f.kind in ("bits", "len") for f in new)
+                    if not wire_dependent:
+                        refusals.append("returns False on a path that does not look at the received bytes: "
+                                        + "; ".join(f.text or repr(f) for f in new)[:300])
+    return refusals, n_eval
+
+
 def run(m: Model, r: Report, tier: str) -> None:
     rule_r7(m, r)
     reg = Registry(m)
@@ -221,37 +256,9 @@ def run(m: Model, r: Report, tier: str) -> None:
                 f"matches() also accepts requests {leaks[:4]}: its isinstance test admits them and nothing compares "
                 "the service / sub-function", loc=mt.funcs[0].loc)
         # R11
-        mf = mt.funcs[0]
-        import re as _re
-        refusals = []
-        n_eval = 0
-        for rp in pa.accepted:
-            for qp in ra.accepted:
-                st = rp.state.clone()
-                base_facts = len(st.facts)
-                oid = st.next_id
-                st.next_id += 1
-                st.heap[oid] = ObjV(qp.obj_cls, dict(qp.fields), oid)
-                try:
-                    outs = ca.interp.call_function(st, mf, [ObjV(qp.obj_cls, {}, oid)], {}, self_val=ObjV(rp.obj_cls, {}, rp.oid))
-                except AnalysisError as e:
-                    refusals.append(f"matches() uses a construct the interpreter does not model: {e}")
-                    break
-                for st2, v in outs:
-                    n_eval += 1
-                    new = st2.facts[base_facts:]
-                    if isinstance(v, Raised):
-                        refusals.append(f"matches() raises {v.exc} ({v.where})")
-                        continue
-                    val = v.value if isinstance(v, ConstV) else None
-                    if val is False:
-                        wire_dependent = any(_re.search(r"pdu\[|\bL\b|from_bytes|bits<", f.vtext or repr(f)) for f in new if f.kind in ("opaque", "bits", "len")) \
-                            or any(f.kind in ("bits", "len") for f in new)
-                        if not wire_dependent:
-                            refusals.append("returns False on a path that does not look at the received bytes: "
-                                            + "; ".join(f.text or repr(f) for f in new)[:300])
+        refusals, n_eval = abstract_match(ca, mt, ra, pa)
         r.check(not refusals, "R11", construct, "; ".join(sorted(set(refusals)))[:700] +
-                ": the genuine reply (same echoed bytes) is refused", loc=mf.loc, fact_ok=f"{n_eval} abstract outcomes")
+                ": the genuine reply (same echoed bytes) is refused", loc=mt.funcs[0].loc, fact_ok=f"{n_eval} abstract outcomes")
         # R10
         key = (p.service_id, p.sub_function_id)
         if key not in iso14229.RESP:
